@@ -9,7 +9,7 @@ if '--' in args:
     i = args.index('--'); seeds, checks = args[:i], args[i+1:]
 else:
     seeds, checks = args, []
-all_seeds = sorted(p.name for p in (V / 'seeded').iterdir() if p.is_dir())
+all_seeds = sorted(p.name for p in (V / 'seeded').iterdir() if p.is_dir() and not p.name.startswith('_'))
 seeds = seeds or all_seeds
 mpath = V / 'seeded' / 'MATRIX.json'
 matrix = json.loads(mpath.read_text()) if mpath.exists() else {}
